@@ -11,6 +11,7 @@ import (
 	"testing"
 
 	"github.com/platinummonkey/go-concurrency-limits/core"
+	"github.com/platinummonkey/go-concurrency-limits/limit"
 	"github.com/platinummonkey/go-concurrency-limits/limiter"
 	"github.com/platinummonkey/go-concurrency-limits/strategy"
 )
@@ -152,6 +153,84 @@ func TestGateStress(t *testing.T) {
 			}
 			w.write(e)
 		}
+	}
+	// limit updates racing completions and grants: completions do not take the limiter's mutex, and SetLimit is a public call
+	// of a strategy used directly - six workers acquire and release a hundred thousand times each while a seventh goroutine
+	// keeps setting the (same) limit. That phase is not recorded; once everything is given back the strategy is probed
+	// sequentially and the probe is the history: a gate with nothing out grants exactly its limit and refuses the next.
+	type probe struct {
+		kind string
+		mk   func(lim int) (core.Limiter, func(int))
+	}
+	probes := []probe{
+		{"simple-direct/after-updates", func(lim int) (core.Limiter, func(int)) {
+			st := strategy.NewSimpleStrategy(lim)
+			return &strategyLimiter{st}, st.SetLimit
+		}},
+		{"precise-direct/after-updates", func(lim int) (core.Limiter, func(int)) {
+			st := strategy.NewPreciseStrategy(lim)
+			return &strategyLimiter{st}, st.SetLimit
+		}},
+		{"default+simple/after-updates", func(lim int) (core.Limiter, func(int)) {
+			st := strategy.NewSimpleStrategy(lim)
+			dl, err := limiter.NewDefaultLimiter(limit.NewFixedLimit("probe", lim, nil), 1e9, 1e9, 1e5, 100, st, nil, core.EmptyMetricRegistryInstance)
+			if err != nil {
+				t.Fatal(err)
+			}
+			return dl, st.SetLimit
+		}},
+	}
+	k := n
+	for _, p := range probes {
+		lim := 6
+		lm, set := p.mk(lim)
+		stop := make(chan struct{})
+		var setter sync.WaitGroup
+		setter.Add(1)
+		go func() {
+			defer setter.Done()
+			for {
+				select {
+				case <-stop:
+					return
+				default:
+					set(lim)
+				}
+			}
+		}()
+		var wg sync.WaitGroup
+		for g := 0; g < 6; g++ {
+			wg.Add(1)
+			go func() {
+				defer wg.Done()
+				for i := 0; i < 100000; i++ {
+					if l, ok := lm.Acquire(context.Background()); ok && l != nil {
+						l.OnIgnore()
+					}
+				}
+			}()
+		}
+		wg.Wait()
+		close(stop)
+		setter.Wait()
+		w.write(J{"t": "reset", "trace": k, "kind": p.kind, "limit": lim, "id": 0, "v": 0, "ok": true, "n": -1})
+		var sq, id int64
+		var held []core.Listener
+		for i := 0; i < lim+2; i++ {
+			id++
+			sq++
+			w.write(J{"t": "b", "trace": k, "id": id, "kind": "acq", "v": 0, "ok": true, "n": -1, "seq": sq})
+			l, ok := lm.Acquire(context.Background())
+			sq++
+			w.write(J{"t": "e", "trace": k, "id": id, "kind": "", "v": 0, "ok": ok && l != nil, "n": -1, "seq": sq})
+			if ok && l != nil {
+				held = append(held, l)
+			}
+		}
+		for _, l := range held {
+			l.OnIgnore()
+		}
+		k++
 	}
 }
 
